@@ -360,6 +360,28 @@ class World:
         self._event(op, ["ok"], [len(self.convs)], extra)
         return "ok"
 
+    def fresh(self, i, extra=()):
+        """Converter(copies of the current records of converter i), and BOTH converters asked the same questions: C05 says
+        the incrementally built one answers exactly as the fresh one (compared answer by answer, list order included)."""
+        I = self.I
+        c0 = self.convs[i - 1]
+        recs = [{"p": r.prefix, "u": r.uri_prefix, "ps": list(r.prefix_synonyms), "us": list(r.uri_prefix_synonyms), "pat": r.pattern} for r in c0.records]
+        self.rng.shuffle(recs)
+        op = {"k": "new", "recs": [enc_rec_arg(I, r) for r in recs], "delim": I(c0.delimiter), "strict": True, "fresh_of": i}
+        try:
+            c = Converter([mk_record(r) for r in recs], delimiter=c0.delimiter)
+        except BaseException as e:  # noqa: BLE001
+            out = enc_exc(e)
+            dups = getattr(e, "duplicates", None)
+            if dups is not None:
+                out.append([[proj_record(I, d.record_1), proj_record(I, d.record_2), I(d.prefix)] for d in dups])
+            self._event(op, out, [])
+            return "raise"
+        self.convs.append(c)
+        common = boundary_probes(c0, self.rng, self.extra_chars, self.probe_cap) + list(extra)
+        self._event(op, ["ok"], [i, len(self.convs)], common)
+        return "ok"
+
     def reuse(self, i, extra_recs, extra=()):
         """Converter(list(conv_i.records) + new records): the SAME Record objects go through another strict construction."""
         I = self.I
